@@ -39,8 +39,8 @@ import (
 	"net/http"
 	"os"
 	"path/filepath"
-	"runtime"
 	"regexp"
+	"runtime"
 	"runtime/debug"
 	"sort"
 	"strconv"
@@ -371,7 +371,11 @@ type callOut struct {
 	alloc  uint64
 	leaked int // goroutines the call left behind
 	stuck  int // ... of which parked where only another goroutine could wake them
-	msg    string
+	read   uint64
+	// maxBlock: the largest number of reads of one 512-byte block of the blob
+	maxBlock   uint32
+	whichBlock int64
+	msg        string
 }
 
 // measured runs one call into the library: a collection first, then the bytes
@@ -383,6 +387,7 @@ func measured(f func(ctx context.Context) (int, error)) (o callOut) {
 	baseIDs := goroutineIDs()
 	runtime.GC()
 	var m0, m1 runtime.MemStats
+	blobStatReset()
 	runtime.ReadMemStats(&m0)
 	func() {
 		defer func() {
@@ -403,6 +408,7 @@ func measured(f func(ctx context.Context) (int, error)) (o callOut) {
 	}()
 	runtime.ReadMemStats(&m1)
 	o.alloc = m1.TotalAlloc - m0.TotalAlloc
+	o.read, o.maxBlock, o.whichBlock = blobStatTake()
 	cancel()
 	// Some scanners park goroutines on the context (the rpm file cache): let
 	// them finish so that they do not allocate inside the next measurement.
@@ -546,6 +552,60 @@ func scanWith(s indexer.VersionedScanner, l *claircore.Layer) func(context.Conte
 	}
 }
 
+// countingBlob is the layer blob as the library sees it: bytes read are
+// counted, and how often each 512-byte block was touched since the last reset
+// (a database that is opened again for every candidate file shows as one block
+// - its first - read that many times).
+type countingBlob struct {
+	r *bytes.Reader
+}
+
+var blobStat struct {
+	mu     sync.Mutex
+	read   uint64
+	blocks map[int64]uint32
+}
+
+func (c countingBlob) ReadAt(p []byte, off int64) (int, error) {
+	n, err := c.r.ReadAt(p, off)
+	if n > 0 {
+		blobStat.mu.Lock()
+		blobStat.read += uint64(n)
+		if blobStat.blocks == nil {
+			blobStat.blocks = map[int64]uint32{}
+		}
+		for b := off / 512; b <= (off+int64(n)-1)/512; b++ {
+			blobStat.blocks[b]++
+		}
+		blobStat.mu.Unlock()
+	}
+	return n, err
+}
+
+func (c countingBlob) Size() int64 { return c.r.Size() }
+
+func blobReader(blob []byte) countingBlob { return countingBlob{bytes.NewReader(blob)} }
+
+// blobStatReset starts a measurement; blobStatTake ends it: bytes read, and the
+// largest number of reads of one block with the block's number.
+func blobStatReset() {
+	blobStat.mu.Lock()
+	blobStat.read, blobStat.blocks = 0, nil
+	blobStat.mu.Unlock()
+}
+
+func blobStatTake() (read uint64, maxBlock uint32, which int64) {
+	blobStat.mu.Lock()
+	defer blobStat.mu.Unlock()
+	which = -1
+	for b, n := range blobStat.blocks {
+		if n > maxBlock || (n == maxBlock && b < which) {
+			maxBlock, which = n, b
+		}
+	}
+	return blobStat.read, maxBlock, which
+}
+
 type workerState struct {
 	out      *bufio.Writer
 	scanners []indexer.VersionedScanner
@@ -554,7 +614,7 @@ type workerState struct {
 	// default"), as libindex builds it when the option is not set.
 	realDefault *indexer.LayerScanner
 	realCalls   int
-	store    *nullStore
+	store       *nullStore
 	// seq is what the sequential run of the current layer answered, by scanner.
 	seq map[int]string
 }
@@ -596,10 +656,10 @@ func (w *workerState) layerCalls(blob []byte, idx []int, report bool) {
 		w.send('S', "-1")
 	}
 	o := measured(func(ctx context.Context) (int, error) {
-		return 0, l.Init(ctx, &desc, bytes.NewReader(blob))
+		return 0, l.Init(ctx, &desc, blobReader(blob))
 	})
 	if report {
-		w.send('R', fmt.Sprintf("-1 %s 0 %d %d/%d %s", o.status, o.alloc, o.leaked, o.stuck, o.msg))
+		w.send('R', fmt.Sprintf("-1 %s 0 %d %d/%d %d/%d/%d %s", o.status, o.alloc, o.leaked, o.stuck, o.read, o.maxBlock, o.whichBlock, o.msg))
 	}
 	if o.status == "ok" {
 		w.seq = map[int]string{}
@@ -623,7 +683,7 @@ func (w *workerState) layerCalls(blob []byte, idx []int, report bool) {
 				w.seq[i] = fmt.Sprintf("%s/%d", o.status, o.items)
 			}
 			if report {
-				w.send('R', fmt.Sprintf("%d %s %d %d %d/%d %s", i, o.status, o.items, o.alloc, o.leaked, o.stuck, o.msg))
+				w.send('R', fmt.Sprintf("%d %s %d %d %d/%d %d/%d/%d %s", i, o.status, o.items, o.alloc, o.leaked, o.stuck, o.read, o.maxBlock, o.whichBlock, o.msg))
 			}
 		}
 		func() {
@@ -646,7 +706,7 @@ func (w *workerState) fanOut(blob []byte, desc *claircore.LayerDescription) call
 	return measured(func(ctx context.Context) (int, error) {
 		var ls [2]claircore.Layer
 		for k := range ls {
-			if err := ls[k].Init(ctx, desc, bytes.NewReader(blob)); err != nil {
+			if err := ls[k].Init(ctx, desc, blobReader(blob)); err != nil {
 				return 0, fmt.Errorf("second Init of the same blob failed: %w", err)
 			}
 			defer ls[k].Close()
@@ -742,7 +802,7 @@ func (w *workerState) realScan(blob []byte, desc *claircore.LayerDescription) ca
 	defer runtime.GOMAXPROCS(prev)
 	return measured(func(ctx context.Context) (int, error) {
 		var l claircore.Layer
-		if err := l.Init(ctx, desc, bytes.NewReader(blob)); err != nil {
+		if err := l.Init(ctx, desc, blobReader(blob)); err != nil {
 			return 0, fmt.Errorf("second Init of the same blob failed: %w", err)
 		}
 		defer l.Close()
